@@ -20,7 +20,10 @@ const rootPkg = "github.com/pbenner/autodiff"
 func init() {
 	externals = map[string]external{
 		"math.Abs":     func(in *Interp, fn *ssa.Function, a []Value) Value { return term.Fabs(a[0].(*term.Term)) },
-		"math.Sqrt":    func(in *Interp, fn *ssa.Function, a []Value) Value { return term.Fsqrt(a[0].(*term.Term)) },
+		"math.Sqrt": func(in *Interp, fn *ssa.Function, a []Value) Value {
+			in.definedSqrt(a[0].(*term.Term))
+			return term.Fsqrt(a[0].(*term.Term))
+		},
 		"math.IsNaN":   func(in *Interp, fn *ssa.Function, a []Value) Value { return term.FisNaN(a[0].(*term.Term)) },
 		"math.Signbit": func(in *Interp, fn *ssa.Function, a []Value) Value { return term.FisNeg(a[0].(*term.Term)) },
 		"math.Max": func(in *Interp, fn *ssa.Function, a []Value) Value {
@@ -155,6 +158,8 @@ func (in *Interp) callFake(fm *fakeMethod, args []Value) Value {
 		switch fm.name {
 		case "String", "Name":
 			return rt.Str
+		case "Kind":
+			return term.IntC(kindSort, kindOf(rt.T))
 		case "Elem":
 			if p, ok := rt.T.Underlying().(*types.Pointer); ok {
 				return Iface{T: in.rtypeT, V: in.rtype(p.Elem())}
@@ -347,9 +352,11 @@ func extPow(in *Interp, fn *ssa.Function, a []Value) Value {
 				r = term.Fmul(r, x)
 			}
 			if half {
+				in.definedSqrt(x)
 				r = term.Fmul(r, term.Fsqrt(x))
 			}
 			if y.F < 0 {
+				in.definedDiv(c(1), r)
 				r = term.Fdiv(c(1), r)
 			}
 			return r
@@ -594,6 +601,21 @@ func (in *Interp) expAtom(t *term.Term) *term.Term {
 	u := term.UF(term.F64, "E", t)
 	if _, done := in.facts[u.ID]; !done {
 		in.addFact(u, term.Flt(term.FloatC(term.F64, 0), u))
+		if !t.IsConst() {
+			// exp is strictly increasing through (0, 1)
+			zero, one := term.FloatC(term.F64, 0), term.FloatC(term.F64, 1)
+			in.addFact(u, term.Or(term.Not(term.Feq(t, zero)), term.Feq(u, one)))
+			in.addFact(u, term.Or(term.Not(term.Flt(zero, t)), term.Flt(one, u)))
+			in.addFact(u, term.Or(term.Not(term.Flt(t, zero)), term.Flt(u, one)))
+			// exp(-a) exp(a) = 1 against the other atoms of this path (a sign
+			// hidden in a symbolic factor escapes the structural expansion)
+			if len(in.expAtoms) < 8 {
+				for _, w := range in.expAtoms {
+					in.addFact(u, term.Or(term.Not(term.Feq(term.Fadd(t, w.Args[0]), zero)), term.Feq(term.Fmul(u, w), one)))
+				}
+				in.expAtoms = append(in.expAtoms, u)
+			}
+		}
 		in.facts[u.ID] = append(in.facts[u.ID], term.True)
 	}
 	return u
